@@ -378,3 +378,22 @@ Example C10_example_boosting :
   | _ => False
   end.
 Proof. cbv zeta. vm_compute. repeat split; reflexivity. Qed.
+
+(* ---- most urgent first, with starvation boosting enabled (Sched/PrioPopBoost.v) ----
+   For EVERY boost factor and every sequence of random draws: the array of the ready queue of
+   every reachable state satisfies the PriorityQueue invariant (heap order, distinct sequence
+   numbers), and popleft returns the unique minimum for the CURRENT keys
+   (class, base + boost as lowered by maintenance so far, arrival). *)
+From Asynkit Require Import Queue.PQProofs Sched.PrioQueueBoost Sched.PrioPopBoost.
+Theorem C10_pop_min_boosting :
+  (forall factor draws lks cds nev l,
+     let s0 := init_st true factor draws lks cds nev in
+     actions_ok s0 l ->
+     exists p, ready (fold_left do_action l s0) = RPos p /\ PQProofs.Inv HPV (pq_ p)) /\
+  (forall p o p',
+     PQProofs.Inv HPV (pq_ p) -> pos_popleft HPV p = Some (o, p') ->
+     exists e, In e (arr (pq_ p)) /\ eobj e = o /\
+       (forall x, In x (arr (pq_ p)) -> x = e \/ entry_lt pv_lt e x = true) /\
+       PQProofs.Inv HPV (pq_ p')).
+Proof. split; [exact reachable_Inv_boost | exact pop_min_boost]. Qed.
+Print Assumptions C10_pop_min_boosting.
